@@ -34,6 +34,14 @@ pub fn inputs(r: &mut StdRng, tier: &str, with_corpora: bool) -> Vec<(String, Ve
         let maxlen = *pick(r, &[2usize, 4, 8, 16]);
         v.push((format!("random-{}-n{}-a{}-l{}", i, n, alpha, maxlen), random_keys(r, n, alpha, maxlen)));
     }
+    // stems x endings with random omissions: sub-automata that are equal, nearly equal (one a
+    // prefix of the other's transition list) and different meet in the node cache
+    let naff = if thorough(tier) { 200 } else { 50 };
+    for i in 0..naff {
+        let st = *pick(r, &[2usize, 3, 5, 8]);
+        let en = *pick(r, &[2usize, 3, 4, 6]);
+        v.push((format!("affix-{}-{}x{}", i, st, en), affix_keys(r, st, en)));
+    }
     if with_corpora {
         v.push(("words-10000".into(), read_lines("words-10000")));
         if thorough(tier) {
@@ -44,8 +52,42 @@ pub fn inputs(r: &mut StdRng, tier: &str, with_corpora: bool) -> Vec<(String, Ve
     v
 }
 
+/// Every subset of a two-level universe (stems x endings) under every small cache geometry:
+/// equal, nearly equal and different sub-automata meet in the node cache in every order.
+pub fn exhaustive_two_level(s: &mut Sess, tier: &str) {
+    let stems: &[u8] = b"1234";
+    let endings: &[u8] = if thorough(tier) { b"abc" } else { b"ab" };
+    let mut uni: Vec<Vec<u8>> = vec![];
+    for &st in stems {
+        for &en in endings {
+            uni.push(vec![st, en]);
+        }
+    }
+    uni.sort();
+    let geos: &[Option<(usize, usize)>] = &[Some((1, 1)), Some((1, 2)), Some((1, 3)), Some((2, 2)), Some((0, 0)), None];
+    let n = uni.len();
+    let mut count = 0usize;
+    for mask in 0u32..(1u32 << n) {
+        let keys: Vec<Vec<u8>> = (0..n).filter(|i| mask & (1 << i) != 0).map(|i| uni[i].clone()).collect();
+        for (gi, geo) in geos.iter().enumerate() {
+            if count % 32 == 0 {
+                s.reset();
+            }
+            count += 1;
+            let as_set = (mask as usize + gi) % 2 == 0;
+            let items: Vec<Kv> = keys.iter().enumerate().map(|(i, k)| (k.clone(), if as_set { 0 } else { (i as u64 % 3) * 7 })).collect();
+            let front = if as_set { Front::SetInsert } else { Front::MapInsert };
+            if let Some(f) = s.build(front, &items, *geo) {
+                s.open(f, "raw");
+                s.stream(f, "raw", &[], None, false, usize::MAX);
+            }
+        }
+    }
+}
+
 pub fn c01(s: &mut Sess, seed: u64, tier: &str) {
     let mut r = rng(seed, 1);
+    exhaustive_two_level(s, tier);
     let ins = inputs(&mut r, tier, true);
     for (name, keys) in ins {
         let big = keys.len() > 2000;
@@ -216,16 +258,28 @@ pub fn c04(s: &mut Sess, seed: u64, tier: &str) {
     }
 }
 
-fn subset(r: &mut StdRng, uni: &[Kv], p: u32, idx: usize, equal_vals: bool) -> Vec<Kv> {
-    uni.iter()
-        .filter(|_| r.gen_range(0, 100) < p)
-        .map(|(k, v)| (k.clone(), if equal_vals { 5 } else { v.wrapping_add(1000 * idx as u64) }))
-        .collect()
+fn subset(r: &mut StdRng, uni: &[Kv], p: u32, idx: usize, vmode: u32) -> Vec<Kv> {
+    let mut out = vec![];
+    for (k, v) in uni.iter() {
+        if r.gen_range(0, 100) >= p {
+            continue;
+        }
+        let val = match vmode {
+            0 => 5,
+            1 => v.wrapping_add(1000 * idx as u64),
+            // zeros and non-zeros interleaved, pack-size boundaries
+            2 => *pick(r, &[0u64, 0, 0, 1, 2, 255, 256, 65536, u64::MAX]),
+            3 => 0,
+            _ => BOUNDARY_VALUES[r.gen_range(0, BOUNDARY_VALUES.len())],
+        };
+        out.push((k.clone(), val));
+    }
+    out
 }
 
 pub fn c05(s: &mut Sess, seed: u64, tier: &str) {
     let mut r = rng(seed, 5);
-    let rounds = if thorough(tier) { 400 } else { 120 };
+    let rounds = if thorough(tier) { 3000 } else { 600 };
     let kinds = [InKind::Whole, InKind::Range, InKind::Search, InKind::User];
     for round in 0..rounds {
         if round % 8 == 0 {
@@ -237,7 +291,7 @@ pub fn c05(s: &mut Sess, seed: u64, tier: &str) {
         let uk = random_keys(&mut r, n, alpha, ml);
         let uni = assign(uk, ValMode::Index, &mut r);
         let k = *pick(&mut r, &[1usize, 2, 2, 3, 3, 4, 5, 6]);
-        let equal = r.gen_range(0, 4) == 0;
+        let vmode = *pick(&mut r, &[0u32, 1, 1, 2, 2, 2, 3, 4]);
         let identical = r.gen_range(0, 6) == 0;
         let mut ins = vec![];
         for j in 0..k {
@@ -246,7 +300,10 @@ pub fn c05(s: &mut Sess, seed: u64, tier: &str) {
                 let it: &OpInput = &ins[0];
                 it.items.clone()
             } else {
-                subset(&mut r, &uni, p, j, equal)
+                {
+                    let vm = if vmode == 2 && r.gen_range(0, 3) == 0 { 1 } else { vmode };
+                    subset(&mut r, &uni, p, j, vm)
+                }
             };
             ins.push(OpInput { items, kind: pick(&mut r, &kinds).clone() });
         }
